@@ -634,6 +634,7 @@ def _message_length(ctx, repo, msg):
                 return None
             it_ok = ast.unparse(loop.iter) in ("self.avps", "self._avps")
             rows = []
+            pad_counted = False
             for p_ in sym.Interp(fold=fold_, hook=hk).loop_body(loop, {acc: A, tv: AV}):
                 if p_.term not in ("fall", "continue"):
                     rows.append((None, f"iteration ends with {p_.term}"))
@@ -650,10 +651,15 @@ def _message_length(ctx, repo, msg):
                 # (`pad or 0` as a value: the padding when there is one, 0 for None / 0)
                 good = delta == want or (has_pad is None and delta in (sym.add(Lx, PADT), sym.add(Lx, ("or", (PADT, 0)))))
                 rows.append((has_pad, sym.show(delta)))
+                if good and has_pad is not False and delta != Lx:
+                    pad_counted = True
                 ctx.decide(good, "R-FLOW/refresh", f"{msg.qual}.refresh", msg.where(loop),
                            f"refresh adds the AVP length{' + padding' if has_pad else ''}",
                            f"for an AVP {'with' if has_pad else 'without'} padding refresh adds `{sym.show(delta)}` instead of the AVP length"
                            f"{' + its padding' if has_pad else ''}", key=f"refresh:{'pad' if has_pad else 'nopad'}")
+            ctx.decide(pad_counted, "R-FLOW/refresh", f"{msg.qual}.refresh", msg.where(loop), "the padding of an AVP is counted",
+                       f"no iteration of refresh adds the AVP's padding (per-iteration increments: {[r_[1] for r_ in rows]}): the Message "
+                       "Length misses the padding octets that dump() emits", key="refresh:pad-counted")
             ok_sum = it_ok and bool(rows)
     ctx.decide(ok_sum, "R-FLOW/refresh", f"{msg.qual}.refresh", msg.where(rf),
                "refresh sums length + padding over every listed AVP", "refresh does not sum length + padding over self.avps",
